@@ -2,7 +2,7 @@
 //! `std`) and compares the two transcripts line by line.
 
 use crate::diff::{pre_run, BUDGET};
-use crate::engines::{Engine, Kind};
+use crate::engines::Engine;
 use crate::exec::{run_compiled, EngineEnd, Family, Ran};
 use crate::genp;
 use crate::isa::*;
@@ -176,9 +176,6 @@ pub fn run(a: &Args, rep: &mut Report) {
         };
         // deterministic placement across the two processes is not needed: outcomes that depend on
         // addresses are masked or dropped, but keep the layout simple
-        if c.kind == Kind::Fixed || c.kind == Kind::Mbuff {
-            c.kind = if c.pkt.is_empty() { Kind::NoData } else { Kind::Raw };
-        }
         // make some cases fail (out of bounds) to compare error values too
         if k % 11 == 0 && c.prog.len() >= 16 {
             let at = c.prog.len() - 8;
